@@ -305,5 +305,36 @@ pub fn writers(args: &[String]) {
             }
         }
     }
-    println!("{}", json!({"cases": cases, "nontrivial": nontrivial, "runs": runs, "violations": violations, "samples": samples}));
+    // long segments (around and beyond common buffer sizes), split in several ways: the mapping must still see whole segments
+    let mut long_cases = 0u64;
+    if shard == 0 {
+        for len in [8191usize, 8192, 8193, 65535, 65536, 65537, 100_000, 200_001, 1_000_003] {
+            for marker_at in [None, Some(len - 1), Some(len / 2), Some(0)] {
+                let mut input: Vec<u8> = (0..len).map(|i| b'a' + (i % 23) as u8).collect();
+                if let Some(m) = marker_at {
+                    input[m] = marker;
+                }
+                let want = expected(&input, marker);
+                for chunk in [usize::MAX, 1, 4096, 8192, 65536, 70_000, 33_333] {
+                    if chunk == 1 && len > 70_000 {
+                        continue;
+                    }
+                    long_cases += 1;
+                    let mut out = Vec::new();
+                    {
+                        let mut w = line_mapped(&mut out, mapf);
+                        for c in input.chunks(chunk.min(len)) {
+                            w.write_all(c).unwrap();
+                        }
+                    }
+                    runs += 1;
+                    if out != want && violations.len() < 5 {
+                        violations.push(json!({"variant": "line_mapped+drop (long segment)", "input": format!("{len} bytes, marker at {marker_at:?}"), "chunks": [format!("write calls of {chunk} bytes")],
+                            "got": format!("{} bytes, starts {:?}", out.len(), String::from_utf8_lossy(&out[..out.len().min(24)])), "want": format!("{} bytes, starts {:?}", want.len(), String::from_utf8_lossy(&want[..want.len().min(24)]))}));
+                    }
+                }
+            }
+        }
+    }
+    println!("{}", json!({"cases": cases + long_cases, "nontrivial": nontrivial + long_cases, "runs": runs, "violations": violations, "samples": samples, "long_segment_cases": long_cases}));
 }
